@@ -431,6 +431,12 @@ def direct_registries(rng, tier: str):
     n = Node(1, 17, "2.0", sketch_name="line\nbreak\ttab\x00nul", sketch_version="  ")
     n.children[2] = Child(2, 6, description="null", values={1: "true", 2: "null", 3: "{}"})
     regs.append(("awkward-strings", {1: n}))
+    # strings that are not well-formed Unicode: a lone surrogate (what a transport decoding with surrogateescape, or a
+    # text cut inside an astral character, hands over).  Python's str holds them; the Lean model's strings do not
+    # (judged by the oracle only, counted as "unmodelled: lone surrogate")
+    n = Node(1, 17, "2.0", sketch_name="Caf\udce9 sensor", sketch_version="\ud83c")
+    n.children[2] = Child(2, 6, description="half \ude00 pair", values={1: "\udc80\udcff", 2: "ok"})
+    regs.append(("lone-surrogates", {1: n}))
     # insertion order different from sorted order, at all three levels
     a, b2 = Node(9, 17, "2.0"), Node(2, 17, "1.4", battery_level=1)
     a.children[5] = Child(5, 1, values={30: "a", 4: "b", 100: "c"})
